@@ -3,3 +3,4 @@ NEXT Next
 CONSTANTS
   DropIds = FALSE
   FoldAnyRight = FALSE
+  FoldLeftConst = FALSE
